@@ -19,9 +19,19 @@ LITS = [b"A", b"AB", b"ABA", b"AAB", b"ABAB", b"BA", b"ABxAB", b"xAx", b"BBBBBB"
 
 
 def gen_ds(rng):
-    if rng.random() < 0.8:
+    k = rng.random()
+    if k < 0.7:
         return "L" + hx(rng.choice(LITS))
     import regen
+    if k < 0.85:
+        # a bracketed variable-width regex (`A x{lo,hi} B`, `AB (x|BA){lo,hi} A`): its longest occurrences contain
+        # no shorter one, so the scan window has to be sized for the MAXIMAL width
+        lo = rng.randint(0, 2)
+        hi = lo + rng.randint(1, 6)
+        body = rng.choice([regen.Cls([(120, 120)]), regen.Cls([(65, 66)]),
+                           regen.Alt(regen.Cls([(120, 120)]), regen.lit(b"BA"))])
+        r = regen.Seq(regen.lit(rng.choice([b"A", b"AB"])), regen.Seq(regen.Rep(body, lo, hi), regen.lit(rng.choice([b"B", b"A", b"xA"]))))
+        return "X" + r.wire()
     r = regen.gen(rng, b"ABx", depth=rng.randint(1, 2))
     if r.nullable():
         r = regen.Seq(regen.Cls([(65, 65)]), r)
@@ -41,6 +51,11 @@ def gen_case(rng, params):
             if d[0] == "L":
                 data += bytes.fromhex(d[1:])
                 data += g.rbytes(rng, rng.randint(0, 3 * (len(d) // 2)), b"xxB")
+            else:
+                import regen
+                occ = regen.sample(regen.parse_wire(d[1:]), rng)
+                data += occ
+                data += g.rbytes(rng, rng.randint(0, 2 * len(occ)), b"xxB")
     data = bytes(data)
     pieces = g.cut(rng, data)
     ticks = g.schedule(rng, pieces, rng.choice(["zero", "zero", "rand"]))
